@@ -161,6 +161,9 @@ impl ClientConnection {
                 request::RequestCreationError::ExpectationFailed => {
                     ReadError::ExpectationFailed(version)
                 }
+                request::RequestCreationError::InvalidContentLength => {
+                    ReadError::WrongHeader(version)
+                }
             }
         })?;
 
